@@ -228,7 +228,8 @@ theorem packMsg_roundtrip (m : Msg) (c : Bool) (hm : msgWF m = true) :
     ∃ bs, packMsg m c 0 (msgLen m) = .ok bs ∧ bs.length ≤ msgLen m ∧
       (c = false → bs.length = msgLen m) ∧ unpackMsg bs = .ok m ∧
       (∀ r d, (r ∈ m.answers ∨ r ∈ m.authorities ∨ r ∈ m.additionals) → r.rdata = .raw d →
-        ∃ pre post, bs = pre ++ (enc16 d.length ++ d ++ post)) := by
+        ∃ pre post, bs = pre ++ (enc16 d.length ++ d ++ post)) ∧
+      bs.take 4 = enc16 m.hdr.id ++ enc16 (bitsOfHeader m.hdr) := by
   obtain ⟨⟨hid, hop, hrc⟩, hq, ha, hn, hx, cq, ca, cn, cx⟩ := msgWF_parts hm
   let H := hdrBytes m.hdr.id (bitsOfHeader m.hdr) m.questions.length m.answers.length
     m.authorities.length m.additionals.length
@@ -242,7 +243,7 @@ theorem packMsg_roundtrip (m : Msg) (c : Bool) (hm : msgWF m = true) :
   obtain ⟨b4, t4, hp4, hE4⟩ := packResourcesLoop_none_enc H hH m.additionals ([] ++ b1 ++ b2 ++ b3) t3 hx
     (by have := hE3.table; simpa [List.append_assoc] using this)
   have l1 := hE1.le; have l2 := hE2.le; have l3 := hE3.le; have l4 := hE4.le
-  refine ⟨H ++ ([] ++ b1 ++ b2 ++ b3 ++ b4), ?_, ?_, ?_, ?_, ?_⟩
+  refine ⟨H ++ ([] ++ b1 ++ b2 ++ b3 ++ b4), ?_, ?_, ?_, ?_, ?_, by simp [H, hdrBytes, enc16]⟩
   · unfold packMsg
     have hcnt : ¬ (m.questions.length > 65535 ∨ m.answers.length > 65535 ∨ m.authorities.length > 65535
         ∨ m.additionals.length > 65535) := by omega
